@@ -527,7 +527,7 @@ class Collection:
         ret = {}
         # Our own tasks get no prefix, just go in as-is: {name: [aliases]}
         for name, task in self.tasks.items():
-            ret[name] = list(map(self.transform, task.aliases))
+            ret[name] = list(self.tasks.aliases_of(name))
         # Subcollection tasks get both name + aliases prefixed
         for coll_name, coll in self.collections.items():
             for task_name, aliases in coll.task_names.items():
